@@ -340,7 +340,7 @@ func imageString(img map[string][]byte) string {
 
 func genC12(seed uint64, tier string) *Case {
 	g := NewRng(seed)
-	c := &Case{P: map[string]int64{"compact": int64(compactSizes[g.Intn(len(compactSizes)-1)]), "err": int64(g.Intn(2)), "part": int64(g.Intn(3))}}
+	c := &Case{P: map[string]int64{"compact": int64(compactSizes[g.Intn(len(compactSizes)-1)]), "err": int64(g.Intn(2)), "part": int64(g.Intn(3)), "early": int64(g.Pick(0, 0, 1))}}
 	n := 4 + g.Intn(25)
 	c.Steps = genSnapEvents(g, n, false)
 	c.Steps = append(c.Steps, Step{Op: "post"})
@@ -379,6 +379,7 @@ func execC12(r *Run) {
 			return snapState{}, nil, "", 0, false
 		}
 		m = &eventModel{st: newSnapState()}
+		early := false
 		for _, s := range r.C.Steps {
 			if s.Op == "post" {
 				nPre = sr.fs.Ops()
@@ -386,10 +387,23 @@ func execC12(r *Run) {
 			}
 			driveSnap(r, sr, m, s)
 			// events keep flowing to the application
+			if r.C.P["early"] == 1 && failAt >= 0 && rec.fired != "" {
+				// the node is shut down right after the fault, before anything else is
+				// recorded: it must get through that without panicking
+				early = true
+				break
+			}
 		}
 		m.sampleClock(sr.clk)
 		delivered := len(sr.out)
 		sr.close()
+		if early {
+			r.Fault("shutdown-right-after-fault")
+			if _, err := recoverImage(r, sr.fs.Image(), false); err != nil {
+				r.Fail("recovery-error", "C12 recovery-error", "reopen after fault %q and immediate shutdown failed: %v", rec.fired, err)
+			}
+			return snapState{}, m, rec.fired, nPre, false
+		}
 		img := sr.fs.Image()
 		got, err := recoverImage(r, img, false)
 		if err != nil {
